@@ -426,7 +426,7 @@ struct Digit {
                     }
                 }
                 ///////////////////////////////////////////////////////////
-                if (number.Natural != 0) {
+                if (is_real || (number.Natural != 0)) {
                     const SizeT32 e_p10_power =
                         (SizeT32(tmp_offset - start_offset) - SizeT32(!fraction_only && has_dot));
 
@@ -487,45 +487,47 @@ struct Digit {
                         }
                     }
                     ///////////////////////////////////////
-                    SizeT32 e_extra_p10_power = 0;
+                    if (number.Natural != 0) {
+                        SizeT32 e_extra_p10_power = 0;
 
-                    if (!fraction_only && (start_offset != offset)) {
-                        if (!has_dot) {
-                            e_extra_p10_power =
-                                SizeT32((exp_offset == 0) ? (offset - start_offset) : (exp_offset - start_offset));
-                        } else if (dot_offset != tmp_offset) {
-                            e_extra_p10_power = SizeT32(dot_offset - start_offset);
+                        if (!fraction_only && (start_offset != offset)) {
+                            if (!has_dot) {
+                                e_extra_p10_power =
+                                    SizeT32((exp_offset == 0) ? (offset - start_offset) : (exp_offset - start_offset));
+                            } else if (dot_offset != tmp_offset) {
+                                e_extra_p10_power = SizeT32(dot_offset - start_offset);
+                            }
+
+                            if (!is_negative_exp) {
+                                exponent += e_extra_p10_power;
+                            } else if (exponent <= e_extra_p10_power) {
+                                exponent        = (e_extra_p10_power - exponent);
+                                is_negative_exp = false;
+                            } else {
+                                exponent -= e_extra_p10_power;
+                            }
                         }
+                        ///////////////////////////////////////
+                        if (is_negative_exp) {
+                            exponent += e_n10_power;
 
-                        if (!is_negative_exp) {
-                            exponent += e_extra_p10_power;
-                        } else if (exponent <= e_extra_p10_power) {
-                            exponent        = (e_extra_p10_power - exponent);
-                            is_negative_exp = false;
+                        } else if (exponent >= e_n10_power) {
+                            exponent -= e_n10_power;
                         } else {
-                            exponent -= e_extra_p10_power;
+                            exponent        = (e_n10_power - exponent);
+                            is_negative_exp = true;
                         }
-                    }
-                    ///////////////////////////////////////
-                    if (is_negative_exp) {
-                        exponent += e_n10_power;
 
-                    } else if (exponent >= e_n10_power) {
-                        exponent -= e_n10_power;
-                    } else {
-                        exponent        = (e_n10_power - exponent);
-                        is_negative_exp = true;
-                    }
+                        if ((is_negative_exp && (exponent > e_p10_power) && ((exponent - e_p10_power) > SizeT32{324})) ||
+                            (!is_negative_exp && ((exponent + e_p10_power) > SizeT32{309}))) {
+                            return QNumberType::NotANumber;
+                        }
 
-                    if ((is_negative_exp && (exponent > e_p10_power) && ((exponent - e_p10_power) > SizeT32{324})) ||
-                        (!is_negative_exp && ((exponent + e_p10_power) > SizeT32{309}))) {
-                        return QNumberType::NotANumber;
-                    }
-
-                    if (is_negative_exp) {
-                        powerOfNegativeTen(number.Natural, exponent);
-                    } else {
-                        powerOfPositiveTen(number.Natural, exponent);
+                        if (is_negative_exp) {
+                            powerOfNegativeTen(number.Natural, exponent);
+                        } else {
+                            powerOfPositiveTen(number.Natural, exponent);
+                        }
                     }
                 }
                 ///////////////////////////////////////
